@@ -469,3 +469,32 @@ def c15(tier):
         for pf in (0, 4):
             us.append(U(f"diffref:p{phys}:pf{pf}", "diff", "diff_ref", dict(phys=phys, prefixes=pf), timeout=600))
     return us + [twin(us[0]), twin(us[-1])]
+
+
+def read_units(tier):
+    ns = [1, 2, 3] if tier == "quick" else [1, 2, 3, 4, 5, 6]
+    return [U(f"read_step:{kind}:n{n}", "tab", "read_step", dict(kind=kind, n=n), timeout=300 if tier == "quick" else 1800)
+            for kind in ("name", "prefix", "datatype") for n in ns]
+
+
+@prop("C04", functions=REJ_FUNCS,
+      bounds={"quick": {"reader lemma": "LookupDecoder from an ARBITRARY state (any fill pattern, any last-assigned / last-reused, n 1..3) x optional entry row x one reference, all ids symbolic in [0, n+1]: result and post-state equal the spec rules when legal, raises when not",
+                        "streams": "reference encoder, 6 statements (generalized + RDF-star terms, repeats, non-ASCII, empty name) in TRIPLES/QUADS/GRAPHS, versions 1 and 2 (namespace rows), tables (8,{0,3,4},{2,3}); six producer-choice policies (quick: the first three policies tied together; redundant entries, explicit entry ids, explicit reference ids, eviction victim, non-use of repeated terms, IRI split point) each never/always/alternating, 5 framings incl. empty frames, delimited or not, repeated options row - all symbolic",
+                        "entries": "generic flat / grouped / to_graph (the rdflib entry points are compared against these in C15)"},
+              "thorough": {"reader lemma": "n 1..6"}},
+      outside="producers using table sizes beyond the bounds; choice sequences that are not expressible as per-kind never/always/alternate policies; streams valid only under spec readings the reference does not share",
+      explanation="L-READ-IND + H-REFENC")
+def c04(tier):
+    us = read_units(tier)
+    for phys in (1, 2, 3):
+        for ver in (1, 2):
+            for (nm, pf, dt) in ((8, 4, 3), (8, 0, 2), (8, 3, 2)):
+                if tier == "quick" and (pf == 3) != (ver == 2):
+                    continue
+                for a in range(3):
+                    for b in range(3):
+                        if tier == "quick" and a != b:
+                            continue
+                        us.append(U(f"refenc:p{phys}:v{ver}:t{nm}-{pf}-{dt}:pol{a}{b}", "refenc", "refenc",
+                                    dict(phys=phys, version=ver, names=nm, prefixes=pf, datatypes=dt, fixed_pol=[a, b] if tier != "quick" else [a, b, (a + 1) % 3], ropt=(tier != "quick" or a == 0)), timeout=600))
+    return us + [twin(us[0]), twin(us[-1])]
